@@ -17,11 +17,25 @@ func arrayProj(v Value, idx *Term) Value {
 		return v
 	}
 	av := v.(ArrayV)
+	if av.Vals != nil {
+		if !idx.IsConst() || !idx.ConstVal().IsInt64() || idx.ConstVal().Int64() >= int64(len(av.Vals)) {
+			panic("unsupported: symbolic index into an array of structs")
+		}
+		return av.Vals[idx.ConstVal().Int64()]
+	}
 	return leafToValue(av.Elem, Select(av.A, idx))
 }
 
 func arrayInj(arr Value, idx *Term, v Value, conv func(PtrV) *Term) Value {
 	av := arr.(ArrayV)
+	if av.Vals != nil {
+		if !idx.IsConst() || !idx.ConstVal().IsInt64() || idx.ConstVal().Int64() >= int64(len(av.Vals)) {
+			panic("unsupported: symbolic index into an array of structs")
+		}
+		nv := append([]Value{}, av.Vals...)
+		nv[idx.ConstVal().Int64()] = v
+		return ArrayV{N: av.N, Elem: av.Elem, Vals: nv}
+	}
 	ts := flatten(av.Elem, v, conv)
 	if len(ts) != 1 {
 		panic("unsupported array element with several leaves")
@@ -762,6 +776,7 @@ func (fr *Frame) callModular(in ssa.Instruction, f *ssa.Function, c *Contract, a
 	if c.Allocates || true {
 		st.HeapTop = p.bumpHeapTop(st.HeapTop, "heaptop")
 	}
+	p.assumeFieldConstraints(st.Guard, old, st)
 	res := fr.freshResult(st, rt, "r."+name)
 	env2 := p.calleeEnv(f, c, args, st, old)
 	env2.bindResults(f, res)
